@@ -9,6 +9,7 @@ From ClapModel Require Import Derive.DeriveModel Derive.DeriveProofs.
 From ClapModel Require Import ParseProofs.Actions ParseProofs.ActionsLoop ParseProofs.Unparse ParseProofs.UnparseTop ParseProofs.UnparseTree.
 From ClapModel Require Import Derive.DeriveCmd Derive.DeriveArgs Derive.DeriveParse Derive.DeriveUpdate Derive.DeriveAccept Derive.DeriveParseEx.
 From ClapModel Require Import Parse.Validator ParseProofs.Relations ParseProofs.ValidateTotal Derive.DerivePost Derive.DerivePostEx.
+From ClapModel Require Import ParseProofs.Dispatch Derive.LoopInv Derive.DeriveTotal Derive.DeriveTotalEx.
 From Coq Require Import ZArith List.
 Import ListNotations.
 Open Scope N_scope.
@@ -383,3 +384,67 @@ Proof.
   split; [exact H1|]. split; [exact H2|]. split; [exact H3|exact PostEx.ex_missing_required].
 Qed.
 Print Assumptions C15_roundtrip_parse_full_nonvacuous.
+
+(** * Round 3: ALL argv (Derive/LoopInv.v, DeriveTotal.v) -- extraction cannot fail after a successful command parse *)
+
+(** A WALK OF [get_matches_with] PARAMETRIC IN THE STATE PREDICATE (any command without [ignore_errors]): a predicate that
+    depends on the argument entries only and is preserved by one successful [react_core] on an argument of the level
+    (non-command-line sources: with at least one raw value) holds of the state of every successful level. *)
+Theorem C15_level_invariant : forall c (Q : Parser.ps -> Prop),
+  (forall st st', mt_args (mt st') = mt_args (mt st) -> Q st -> Q st') ->
+  (forall idn s a raw ti st, In a (c_args c) -> (s <> SCmdLine -> raw <> []) -> Q st ->
+     holds (fun x => Q (fst x)) Tr (react_core c idn s a raw ti st)) ->
+  is_set s_ignore_errors c = false ->
+  forall fuel toks st0, Q st0 -> holds Q Tr (get_matches_with fuel c toks st0).
+Proof. exact gmw_Q. Qed.
+Print Assumptions C15_level_invariant.
+
+(** STORED VALUE GROUPS ARE NON-EMPTY (any command that passed [assert_app], no [ignore_errors], ANY token list): after a
+    successful level the keys are unique and every argument of [full_groups] (flag / counter actions; Set / Append with a
+    value range starting at 1) holds at least one group, none of them empty. *)
+Theorem C15_stored_groups_nonempty : forall c, assert_app c = true -> is_set s_ignore_errors c = false ->
+  forall fuel toks st, get_matches_with fuel c toks ps_new = ROk st ->
+  wf_m (mt st) /\ forall a m, In a (c_args c) -> full_groups a -> fm_get (a_id a) (mt_args (mt st)) = Some m ->
+    m_raw m <> [] /\ Forall (fun g : list bytes => g <> []) (m_raw m).
+Proof. exact gmw_nonempty. Qed.
+Print Assumptions C15_stored_groups_nonempty.
+
+(** EXTRACTION CANNOT FAIL AFTER A SUCCESSFUL COMMAND PARSE -- for ALL argv, every struct of argument fields (options and
+    positionals, any attributes) that passes clap's assertions and is [guarded]: no unit field, and every plain field [T]
+    is [required] or has a default and its argument cannot be stored without a value.  ([C15_extract_after_parse_needs_
+    required_refuted] is the witness outside the class.)  Uses C04 (typed invariant), C03 (soundness of the validator), C06
+    (precedence: a default gives an entry), [C15_stored_groups_nonempty] and [C15_extract_total]. *)
+Theorem C15_extract_total_argv : forall d argv m,
+  fields_only (d_nodes d) = true -> Forall guarded (fields_of (d_nodes d)) ->
+  valid (with_bin (derive_cmd d) (hd [] argv)) = true ->
+  parse_top (derive_cmd d) argv = OOk m -> enum_ok_nodes (d_nodes d) m = true ->
+  exists vs, extract d m = XOk vs.
+Proof. exact extract_total_argv. Qed.
+Print Assumptions C15_extract_total_argv.
+
+(** THE FIRST SENTENCE OF THE PROPERTY AS AN EQUIVALENCE, ALL ARGV: the derived parser returns a value exactly when the
+    generated command's parse (with the enum value check) succeeds. *)
+Theorem C15_parse_succeeds_iff_command : forall d argv,
+  fields_only (d_nodes d) = true -> Forall guarded (fields_of (d_nodes d)) ->
+  valid (with_bin (derive_cmd d) (hd [] argv)) = true ->
+  ((exists vs, derived_parse d argv = PValue vs) <-> (exists m, cmd_parse (derive_cmd d) (d_nodes d) argv = OOk m)).
+Proof. exact parse_iff_command. Qed.
+Print Assumptions C15_parse_succeeds_iff_command.
+
+(** Non-vacuity: the struct of [C15_roundtrip_parse_full_nonvacuous] on [prog --kk z --nn a -cc --vv] (not a printed line)
+    and a struct with positional fields on [prog 7 a b]: the class holds, the command accepts; and [required = false] on a
+    plain field is outside the class. *)
+Theorem C15_extract_total_argv_nonvacuous :
+  Forall guarded (fields_of (d_nodes PostEx.d)) /\ valid (with_bin (derive_cmd PostEx.d) (hd [] TotalEx.argv)) = true
+  /\ (exists m, cmd_parse (derive_cmd PostEx.d) (d_nodes PostEx.d) TotalEx.argv = OOk m)
+  /\ derived_parse PostEx.d TotalEx.argv =
+       PValue [DOne (SvStr [97]); DOne (SvBool true); DOne (SvInt 2%Z); DOpt None; DOne (SvStr [122])]
+  /\ Forall guarded (fields_of (d_nodes TotalEx.dp)) /\ valid (with_bin (derive_cmd TotalEx.dp) (hd [] TotalEx.argvp)) = true
+  /\ derived_parse TotalEx.dp TotalEx.argvp = PValue [DOne (SvInt 7%Z); DVec [SvStr [97]; SvStr [98]]]
+  /\ ~ Forall guarded (fields_of (d_nodes NotRequiredEx.d)).
+Proof.
+  split; [exact TotalEx.ex_guarded|]. split; [exact TotalEx.ex_valid|]. split; [exact TotalEx.ex_command_accepts|].
+  split; [exact TotalEx.ex_value|]. split; [exact TotalEx.exp_guarded|]. split; [exact TotalEx.exp_valid|].
+  split; [exact TotalEx.exp_value|exact TotalEx.not_guarded].
+Qed.
+Print Assumptions C15_extract_total_argv_nonvacuous.
